@@ -11,8 +11,8 @@ class TauLeap3D : public SimulationAlgorithm3DBase
     {
     private :
 
-    std::vector<int> mesh_nr; //species quantities
-    std::vector<int> mesh_nd; //species quantities
+    std::vector<long long> mesh_nr; //species quantities
+    std::vector<long long> mesh_nd; //species quantities
 
     void Compute_nevt()
         {
